@@ -8,7 +8,7 @@ cd $WT && git checkout -q --detach $(git -C /repo rev-parse HEAD) && git checkou
 [ -f _build/build.ninja ] || cmake -G Ninja -B _build -S . -DCMAKE_BUILD_TYPE=RelWithDebInfo -DCMAKE_CXX_FLAGS=-Wno-error -DTERMINALPP_WITH_TESTS=ON -DCMAKE_PREFIX_PATH=/root/miniconda >/dev/null
 cmake --build _build >/dev/null 2>&1
 for d in "$@"; do
-  name=$(echo $d | sed 's|/tmp/wt2/\(C[0-9]*\)\.out/|\1-r2-|; s|/tmp/wt3/\(C[0-9]*\)\.out/|\1-r3-|; s|/tmp/wt4/\(C[0-9]*\)\.out/|\1-r4-|; s|/tmp/wt5/\(C[0-9]*\)\.out/|\1-r5-|; s|/tmp/wt6/\(C[0-9]*\)\.out/|\1-r6-|; s|/tmp/wt/||; s|\.out/|-|')
+  name=$(echo $d | sed 's|/tmp/wt2/\(C[0-9]*\)\.out/|\1-r2-|; s|/tmp/wt3/\(C[0-9]*\)\.out/|\1-r3-|; s|/tmp/wt4/\(C[0-9]*\)\.out/|\1-r4-|; s|/tmp/wt5/\(C[0-9]*\)\.out/|\1-r5-|; s|/tmp/wt6/\(C[0-9]*\)\.out/|\1-r6-|; s|/tmp/wt7/\(C[0-9]*\)\.out/|\1-r7-|; s|/tmp/wt/||; s|\.out/|-|')
   out=/tmp/val/$name.result
   {
     echo "seed=$d"
